@@ -40,7 +40,7 @@ _MORE = {
     "C01": ("Round trip {INV & documented precondition} A; A.inverse(); inverse-of-inverse restores nodes, edges, registered feature values, segmentation and both "
             "lookups, proved for every primitive (incl. UpdateNodeSeg, with and without segmentation) with the real inverse() methods; 'invertible here' proved at "
             "every primitive call site of the six node/edge user actions; actions list records the applied sub-actions in order; real ActionGroup.inverse proved to "
-            "return the reversed list of inverses for every length; composition by Lean lemma M4; UserUpdateSegmentation proved to record a chain of sub-actions from the entry world to the final world. Relabel walk body proved. Bounded: walk bookkeeping; which sub-actions a paint stroke needs (exhaustive stroke enumeration).",
+            "return the reversed list of inverses for every length; composition by Lean lemma M4; UserUpdateSegmentation proved to record a chain of sub-actions from the entry world to the final world. Relabel walk body proved (attributes and lookups). Bounded: which sub-actions a paint stroke needs (exhaustive stroke enumeration).",
             "contract-based deductive verification (AST->VC, z3/cvc5) + Lean lemma M4 + bounded stand-in (walk)"),
     "C04": ("Local clauses T1/T2/has-id preserved by all six node/edge user actions on a symbolic forest; walk preconditions P1/P2 proved at every call site; exact "
             "rewrite 'ids change exactly below the relabelled node'; the relabel walk body proved against its contract (nested loops, ghost frontier); local=>global by Lean M2. "
@@ -50,8 +50,9 @@ _MORE = {
             "Walk body proved (lineage rewritten for every node below the start). Bounded: bulk assignment.", "contract-based deductive verification (inductive invariant) + Lean M1 + bounded stand-ins"),
     "C06": ("B1 (lookup = nodes carrying the id, as a bag) and B2 (maxima dominate => fresh ids) preserved by every user action; AddNode/DeleteNode bookkeeping proved with "
             "the real helpers inlined; bodies of get_track_neighbors (loop invariant over the lookup list) and has_track_id_at_time proved against their contracts. "
-            "Bounded: the walk's bookkeeping helpers; cross-check of the queries on all forests <= 5 nodes with every order of the lookup lists.",
-            "contract-based deductive verification (representation invariant of the lookups) + bounded stand-in for the walk's bookkeeping"),
+            "The four bookkeeping helpers are proved against bag specifications for node lists of every length, and the relabel walk is proved to re-establish B1 and raise the maxima. "
+            "Bounded: cross-check of the queries and of the walk's lookups on all forests <= 5 nodes with every order of the lookup lists; bulk construction.",
+            "contract-based deductive verification (representation invariant of the lookups, bag model of the lookup lists) + bounded cross-checks"),
     "C07": ("S1/S2 preserved by every primitive (symbolic label video) and the six node/edge user actions; pixel-exact write clauses; inverse restores the array bit for bit. "
             "Bounded: paint-driven UserUpdateSegmentation by seeded random strokes and by every rectangular stroke up to 2x3 on two fixtures (exhaustive).", "contract-based deductive verification over a symbolic label array + bounded stand-in (paint strokes)"),
     "C08": ("Invariant R (stored = RP(attr name, node's mask in its own frame, scale[1:])) for every active key preserved by every primitive and six user actions; "
